@@ -1590,6 +1590,15 @@ impl<T: Transport, Env: UtpEnvironment> VirtualSocket<T, Env> {
 
             // Quit normally if both sides sent FIN and ACKed each other.
             if self.state_is_closed() {
+                // Data (and the EOF) that was received in order and acknowledged, but does not
+                // fit the reader's queue yet, must not be dropped with the connection: wait
+                // for the reader to make room. user_rx.flush() above registered our waker.
+                if self.user_rx.has_unflushed_in_order() && !self.user_rx.is_reader_dropped() {
+                    self.timers
+                        .remote_inactivity_timer
+                        .turn_off("closed, waiting for the reader to drain");
+                    return Poll::Pending;
+                }
                 self.just_before_death(cx, None);
                 return Poll::Ready(Ok(()));
             }
